@@ -10,7 +10,9 @@
 (*                                                                         *)
 (* hits:  <clause>  number of events on which the clause was demanded and  *)
 (*                  held;   "unc:<call>" statement silent (premise not     *)
-(*                  certified);   "oor:<clause>" not decidable in 32 bits. *)
+(*                  certified);   "oor:<clause>" not decidable in 32 bits; *)
+(*                  "drift:<call>" real output differs from the design     *)
+(*                  model's (model comparison events only).                *)
 (***************************************************************************)
 EXTENDS Factorisations, TLC, Json, IOUtils
 
@@ -24,6 +26,7 @@ Bump(h, k) == IF k \in DOMAIN h THEN [h EXCEPT ![k] = @ + 1] ELSE h @@ (k :> 1)
 KeyOf(v) == IF v[1] = "pass" THEN v[2]
             ELSE IF v[1] = "unc" THEN "unc:" \o v[2]
             ELSE IF v[1] = "oor" THEN "oor:" \o v[2]
+            ELSE IF v[1] = "drift" THEN "drift:" \o v[2]
             ELSE "bad"
 
 (* v is passed as an argument so that Judge is evaluated once per event *)
